@@ -26,6 +26,54 @@ class Row:
 
 
 def helper_rows(repo: Repo, module: str, fname: str):
+    """Rows of a table helper.  Recognised: ``return {k: v, ...}[p]`` / ``.get(p, d)`` with the literal in the function, and
+    helpers that index module-level tables (possibly derived: ``return SUFFIX[OPPOSITE[p]]``): then the rows are obtained by
+    evaluating the returned expression for every candidate key."""
+    m = repo.mod(module)
+    fn = m.func(fname)
+    ret, d = _return_dict(fn)
+    if d is not None:
+        return _literal_rows(repo, module, fname)
+    from .consteval import PyDict
+    rets = [st for st in ast.walk(fn) if isinstance(st, ast.Return) and st.value is not None]
+    if len(rets) != 1 or not fn.args.args:
+        raise AnalysisError(f"table helper {module}.{fname}: no dict literal returned and not a single-return look-up (shape not recognised)")
+    R = rets[0].value
+    param = fn.args.args[0].arg
+    fe = FnEval(repo, m, fn)
+    nid = (fe.node_ids(rets[0]) or [0])[0]
+    # candidate keys: keys of every module-level table mentioned in the returned expression
+    cand = []
+    for nme in ast.walk(R):
+        if isinstance(nme, ast.Name) and nme.id != param:
+            v = fe.eval(nme, nid)
+            if v is not TOP:
+                for x in v:
+                    if isinstance(x, PyDict):
+                        for k in x.keys():
+                            if k not in cand:
+                                cand.append(k)
+    if not cand:
+        raise AnalysisError(f"table helper {module}.{fname}: returned expression {norm(R)[:60]} does not index a known table")
+    how, default = "subscript", None
+    if isinstance(R, ast.Call) and isinstance(R.func, ast.Attribute) and R.func.attr == "get":
+        how = "get"
+        default = fe.eval(R.args[1], nid) if len(R.args) > 1 else frozenset([None])
+    rows = []
+    for i, k in enumerate(cand):
+        fe2 = FnEval(repo, m, fn, {param: frozenset([k])})
+        vals = fe2.eval(R, nid)
+        if vals is TOP:
+            raise AnalysisError(f"table helper {module}.{fname}: value for key {k!r} cannot be resolved")
+        if how == "get" and default is not None and vals == default:
+            continue
+        if not vals:
+            continue  # not a key of this table
+        rows.append(Row(k, R, vals, fname, i))
+    return rows, how, default
+
+
+def _literal_rows(repo: Repo, module: str, fname: str):
     """Rows of a helper of the form ``return {k: v, ...}[p]`` / ``.get(p, d)``.
     Returns (rows, how, default_values)."""
     m = repo.mod(module)
